@@ -123,10 +123,14 @@ func (c Cache) Check(typ analysis.Type) bool {
 
 // Imports returns the [types.Package.Path] for every
 // types in the cache (removing the duplicates)
-func (c Cache) Imports() []string {
+func (c Cache) Imports() []string { return c.ImportsFor(nil) }
+
+// ImportsFor is [Imports] for a file of the package [target], which
+// can not import itself.
+func (c Cache) ImportsFor(target *types.Package) []string {
 	unique := map[string]bool{}
 	for named := range c {
-		if pkg := named.Obj().Pkg(); pkg != nil {
+		if pkg := named.Obj().Pkg(); pkg != nil && pkg != target {
 			unique[pkg.Path()] = true
 		}
 	}
